@@ -45,7 +45,7 @@ Definition is_cseq (n : bytes) := equal_fold n (s2b "cseq").
 
 Definition j_header (line : bytes) : option (bytes * bytes) :=
   match index_byte ":"%char line with
-  | Some p => Some (firstn p line, trim_space (skipn (S p) line))
+  | Some p => Some (firstn p line, trim_space_go (skipn (S p) line))   (* blanks = Unicode white space *)
   | None => None
   end.
 Fixpoint j_headers (ls : list bytes) : option (list (bytes * bytes)) :=
